@@ -667,8 +667,21 @@ def scan_lock_released_by_glue(repo):
     return True, "InjectorPP holds the guard as a plain `MutexGuard` field; no ManuallyDrop / mem::forget / Box::leak in injector.rs"
 
 
+def _replay_c04(verif):
+    """the lock is not the plain exclusive MutexGuard field the contracts speak about: two native replays decide —
+    a restoration that panics must still release the guard; a second holder (any of the four combinations of
+    preventer / injector) must not be admitted while the first guard is live (wave 10, seed C04-j: RwLock)"""
+    a = _replay_bin("c04_restore_fault", [], verif)
+    if a.get("reproduced"):
+        return a
+    b = _replay_bin("c04_two_holders", [], verif)
+    if b.get("reproduced"):
+        return b
+    return dict(reproduced=False, restore_fault=a, two_holders=b)
+
+
 STATIC["c04_lock_released_by_drop_glue"] = dict(props=["C04", "C05"], fn=scan_lock_released_by_glue, obligation="C04.lock.released-on-every-exit",
-                                                replay_static=lambda verif: _replay_bin("c04_restore_fault", [], verif))
+                                                replay_static=lambda verif: _replay_c04(verif))
 
 # ------------------------------------------------------------------------------------------------
 # Frame of the per-call contracts: every Kani harness starts from the initial value of every static, so a contract
